@@ -356,8 +356,18 @@ JB_CONTRACT
 ;
 unsigned w_bufsize;
 WITNESS(ovni_ev_add_jumbo);
+/* The enforce-only twin is proved in two groups that split the input space
+ * exhaustively (-DJB_CASE=1: the call flushes first; -DJB_CASE=0: it does not) */
+#ifndef JB_CASE
+#define JB_SPLIT 1
+#elif JB_CASE == 1
+#define JB_SPLIT JB_WILLFLUSH
+#else
+#define JB_SPLIT (!JB_WILLFLUSH)
+#endif
 void c_ovni_ev_add_jumbo(struct ovni_ev *ev, const uint8_t *buf, uint32_t bufsize)
 JB_CONTRACT
+__CPROVER_requires(JB_SPLIT)
 __CPROVER_requires(WBIND(ovni_ev_add_jumbo, w_cap == g_cap && w_evlen0 == rthread.evlen && w_flen0 == g_file_len && w_flags == ev->header.flags && w_bufsize == bufsize))
 ;
 void h_ovni_ev_add_jumbo(void)
@@ -365,16 +375,17 @@ void h_ovni_ev_add_jumbo(void)
 	struct ovni_ev *ev; const uint8_t *buf; uint32_t bufsize;
 	WITNESS_ON(ovni_ev_add_jumbo); WITNESS_OFF(flush_evbuf);
 	ovni_ev_add_jumbo(ev, buf, bufsize);
-	REACH("ovni_ev_add_jumbo returns");
 	unsigned long total = 16UL + w_bufsize;
 	int flushed = w_evlen0 + total >= w_cap;
-	if (flushed) REACH("jumbo flushed first");
-	if (!flushed) REACH("jumbo did not flush");
-	if (w_bufsize == 0) REACH("jumbo with no data");
-	if (total + 24 == w_cap - 1) REACH("largest admitted jumbo");
-	if (w_cap == (unsigned long) REAL_MAX_EV_BUF) REACH("the real 2 MiB capacity is admitted");
-	if (g_pos >= w_flen0 + w_evlen0 + 16 && g_pos < w_flen0 + w_evlen0 + total) REACH("observer inside the jumbo data");
+	/* few REACH points: each failing assertion is a SAT call on a big formula */
+#if !defined(JB_CASE) || JB_CASE == 0
+	if (!flushed && w_bufsize == 0) REACH("jumbo with no data, no flush");
+	if (!flushed && g_pos >= w_flen0 + w_evlen0 + 16 && g_pos < w_flen0 + w_evlen0 + total) REACH("observer inside the jumbo data");
+#endif
+#if !defined(JB_CASE) || JB_CASE == 1
+	if (flushed && total + 24 == w_cap - 1 && w_cap == (unsigned long) REAL_MAX_EV_BUF) REACH("largest admitted jumbo at the real 2 MiB capacity, flushed first");
 	if (flushed && g_pos >= w_flen0 + w_evlen0 + total) REACH("observer on the markers after the jumbo");
+#endif
 }
 
 /* --------------------------------------------------------------- public API */
